@@ -82,8 +82,8 @@ PROPS = {
     "C10": dict(
         domains=[("smserver", "hist", 1500, 20000), ("smserver", "cer", 500, 5000), ("smserver", "multi", 400, 4000), ("smclient", "dialall", 1, 1), ("smclient", "dial", 200, 3000)],
         relevant=["C10:"],
-        theorems=["DV.Props.C10."+t for t in ["C10_gate","C10_after","C10_meta_after_write","C10_history","C10_builtin","C10_names_refused","C10_client_first_cea_decides","C10_client_gate_needs_success","C10_gen"]],
-        gen_obligations=["Gen.smNewRegs","Gen.cmdCapabilitiesExchange","Gen.cmdDeviceWatchdog"],
+        theorems=["DV.Props.C10."+t for t in ["C10_gate","C10_after","C10_meta_after_write","C10_history","C10_builtin","C10_names_refused","C10_client_first_cea_decides","C10_client_gate_needs_success","C10_gate_gen","C10_gen"]],
+        gen_obligations=["Gen.smNewRegs","Gen.cmdCapabilitiesExchange","Gen.cmdDeviceWatchdog","Gen.handshakeGateType","Gen.handshakeGateBody"],
         trusted=["Model.SM hand-written from diam/sm/sm.go, cer.go, dwr.go, smparser/*.go, smpeer/metadata.go; dispatch through the C09 mux model"],
     ),
     "C11": dict(
@@ -150,14 +150,14 @@ PROPS = {
         domains=[("smclient", "dialall", 1, 1), ("smclient", "dial", 400, 6000), ("smclient", "cea", 3000, 40000), ("smclient", "dialtcp", 1, 1)],
         relevant=["C12:"],
         theorems=["DV.Props.C12."+t for t in ["C12_bound","C12_outcome","C12_timeout_last","C12_stable","C12_noblock","C12_cer","C12_cea_accept","C12_duplicate_cea_counterexample","C12_late_failure_counterexample","C12_answers_by_connection","C12_gen"]],
-        gen_obligations=["Gen.handshakeAnswerHandlers","Gen.capErrc","Gen.ceaHandlerOnce","Gen.handshakeMakeCER","Gen.handshakeWrites","Gen.handshakeCloses","Gen.handshakeLoopCond"],
+        gen_obligations=["Gen.handshakeAnswerHandlers","Gen.capErrc","Gen.ceaHandlerOnce","Gen.handshakeMakeCER","Gen.handshakeWrites","Gen.handshakeCloses","Gen.handshakeLoopCond","Gen.clientTimers","Gen.smDeadlineCalls"],
         trusted=CLIENT_TRUST,
     ),
     "C13": dict(
         domains=[("smclient", "wd", 400, 6000), ("smserver", "hist", 800, 10000)],
         relevant=["C13:"],
         theorems=["DV.Props.C13."+t for t in ["C13_bound","C13_ack_not_lost","C13_responsive","C13_silent","C13_failure_dwa_ignored","C13_drained","C13_lost_ack_counterexample","C13_dwa","C13_answers_by_connection","C13_latest_handshake_counterexample","C13_gen"]],
-        gen_obligations=["Gen.handshakeAnswerHandlers","Gen.capDwac","Gen.dwrDrainsFirst","Gen.dwaSendNonBlocking","Gen.dwrMakeDWR","Gen.dwrWrites","Gen.dwrCloses","Gen.dwrLoopCond"],
+        gen_obligations=["Gen.handshakeAnswerHandlers","Gen.capDwac","Gen.dwrDrainsFirst","Gen.dwaSendNonBlocking","Gen.dwrMakeDWR","Gen.dwrWrites","Gen.dwrCloses","Gen.dwrLoopCond","Gen.clientTimers"],
         trusted=CLIENT_TRUST,
     ),
     "C18": dict(
